@@ -39,14 +39,46 @@ inductive NewItem (s s' : St) : CbItem → Prop where
       (hres : s.resolved = true) :
       NewItem s s' (.refcb r (k == .rcd) false 0 0)
   /-- call of a release function -/
-  | rel (i k seen : Nat) (h0 : released s i = false) (h1 : released s' i = true) :
+  | rel (i k seen : Nat) (h0 : released s i = false) (h1 : released s' i = true) (hseen : seen = s'.target) :
       NewItem s s' (.rel i k seen)
+
+theorem newItem_deliver (s s' : St) (r : Nat) (vis : Bool) (v er : Nat)
+    (h : NewItem s s' (.refcb r vis true v er)) :
+    ∃ k pc f sf t i, s'.th[r]? = some (.ref k pc true f sf t) ∧ k ≠ .nil ∧ (k == .rcd) = vis ∧
+      s'.cur = some i ∧ v = s'.value ∧ er = s'.verr := by
+  generalize hit : CbItem.refcb r vis true v er = it at h
+  cases h with
+  | deliver r0 k pc f sf t i hth hk hcur =>
+    simp at hit; obtain ⟨rfl, rfl, rfl, rfl⟩ := hit
+    exact ⟨k, pc, f, sf, t, i, hth, hk, rfl, hcur, rfl, rfl⟩
+  | gone r0 k pc f sf t hth hk hcur hres => simp at hit
+  | rel i k seen h0 h1 hseen => cases hit
+
+theorem newItem_gone (s s' : St) (r : Nat) (vis : Bool) (v er : Nat)
+    (h : NewItem s s' (.refcb r vis false v er)) :
+    ∃ k pc f sf t, s'.th[r]? = some (.ref k pc true f sf t) ∧ k ≠ .nil ∧ (k == .rcd) = vis ∧
+      s'.cur = none ∧ s.resolved = true ∧ v = 0 ∧ er = 0 := by
+  generalize hit : CbItem.refcb r vis false v er = it at h
+  cases h with
+  | deliver r0 k pc f sf t i hth hk hcur => simp at hit
+  | gone r0 k pc f sf t hth hk hcur hres =>
+    simp at hit; obtain ⟨rfl, rfl, rfl, rfl⟩ := hit
+    exact ⟨k, pc, f, sf, t, hth, hk, rfl, hcur, hres, rfl, rfl⟩
+  | rel i k seen h0 h1 hseen => cases hit
+
+theorem newItem_rel (s s' : St) (i k seen : Nat) (h : NewItem s s' (.rel i k seen)) :
+    released s i = false ∧ released s' i = true ∧ seen = s'.target := by
+  generalize hit : CbItem.rel i k seen = it at h
+  cases h with
+  | deliver r0 k0 pc f sf t i0 hth hk hcur => cases hit
+  | gone r0 k0 pc f sf t hth hk hcur hres => cases hit
+  | rel i0 k0 seen0 h0 h1 hseen => cases hit; exact ⟨h0, h1, hseen⟩
 
 theorem shutdown_items (s0 : St) (hrel : RelOk s0) (it : CbItem) (h : it ∈ (shutdown s0).pend.flatten) :
     it ∈ s0.pend.flatten ∨
     (s0.resolved = true ∧ ∃ a k pc f sf t, s0.th[a]? = some (.ref k pc true f sf t) ∧ k ≠ .nil ∧
       it = .refcb a (k == .rcd) false 0 0) ∨
-    (∃ i k seen, it = .rel i k seen ∧ s0.rel = some i) := by
+    (∃ i, it = .rel i (invOf s0.calls i) (shutdown s0).target ∧ s0.rel = some i) := by
   rw [shutdown_pend] at h
   rcases mem_flatten_addBatch _ _ it h with h1 | h1
   · split at h1
@@ -57,17 +89,20 @@ theorem shutdown_items (s0 : St) (hrel : RelOk s0) (it : CbItem) (h : it ∈ (sh
     · exact Or.inl h1
   · cases hr : s0.rel with
     | none => simp [hr] at h1
-    | some j => simp [hr] at h1; exact Or.inr (Or.inr ⟨j, _, _, h1, rfl⟩)
+    | some j =>
+      simp only [hr, List.mem_singleton] at h1
+      exact Or.inr (Or.inr ⟨j, h1, rfl⟩)
 
 
 theorem newItem_congr (s a b : St) (it : CbItem) (h : NewItem s a it) (h1 : b.th = a.th) (h2 : b.cur = a.cur)
-    (h3 : b.value = a.value) (h4 : b.verr = a.verr) (h5 : ∀ i, released b i = released a i) : NewItem s b it := by
+    (h3 : b.value = a.value) (h4 : b.verr = a.verr) (h5 : ∀ i, released b i = released a i)
+    (h6 : b.target = a.target) : NewItem s b it := by
   cases h with
   | deliver r k pc f sf t i hth hk hcur =>
     rw [← h3, ← h4]; exact .deliver r k pc f sf t i (by rw [h1]; exact hth) hk (by rw [h2]; exact hcur)
   | gone r k pc f sf t hth hk hcur hres =>
     exact .gone r k pc f sf t (by rw [h1]; exact hth) hk (by rw [h2]; exact hcur) hres
-  | rel i k seen h0 hr => exact .rel i k seen h0 (by rw [h5]; exact hr)
+  | rel i k seen h0 hr hseen => exact .rel i k seen h0 (by rw [h5]; exact hr) (by rw [h6]; exact hseen)
 
 /-- the entries owed after `shutdown` -/
 theorem items_shutdown (s s1 : St) (hc : Core s) (e1 : s1.calls = s.calls) (e2 : s1.rel = s.rel)
@@ -75,7 +110,7 @@ theorem items_shutdown (s s1 : St) (hc : Core s) (e1 : s1.calls = s.calls) (e2 :
     (h : it ∈ (shutdown s1).pend.flatten) : it ∈ s.pend.flatten ∨ NewItem s (shutdown s1) it := by
   have hrel : RelOk s1 := by
     intro i hr; rw [e2] at hr; rw [e1]; exact relOk_of_core s hc i hr
-  rcases shutdown_items s1 hrel it h with h1 | ⟨hres, a, k, pc, f, sf, t, hth, hk, rfl⟩ | ⟨i, k, seen, rfl, hr⟩
+  rcases shutdown_items s1 hrel it h with h1 | ⟨hres, a, k, pc, f, sf, t, hth, hk, rfl⟩ | ⟨i, rfl, hr⟩
   · left; rw [← e4]; exact h1
   · right
     refine .gone a k pc f sf none ?_ hk (by rw [shutdown_cur, hres]; rfl) (by rw [← e3]; exact hres)
@@ -83,7 +118,7 @@ theorem items_shutdown (s s1 : St) (hc : Core s) (e1 : s1.calls = s.calls) (e2 :
     rw [tellAll_get, hth]; simp [tell1, hk]
   · right
     obtain ⟨c, g1, g2⟩ := hrel i hr
-    refine .rel i k seen ?_ ?_
+    refine .rel i _ _ ?_ ?_ rfl
     · unfold released; rw [← e1, g1]; exact g2
     · rw [shutdown_released s1 hrel, hr]; simp
 
@@ -95,7 +130,7 @@ theorem items_startResolve (s s1 : St) (hc : Core s) (e1 : s1.calls = s.calls) (
   rcases items_shutdown s s1 hc e1 e2 e3 e4 it h with h1 | h1
   · exact Or.inl h1
   · right
-    refine newItem_congr s _ _ it h1 f4 f3 ?_ ?_ (fun i => released_startResolve s1 i)
+    refine newItem_congr s _ _ it h1 f4 f3 ?_ ?_ (fun i => released_startResolve s1 i) (startResolve_fields s1).2.1
     · rw [startResolve_eq]; split <;> simp [spawned]
     · rw [startResolve_eq]; split <;> simp [spawned]
 
@@ -188,7 +223,7 @@ theorem items_frame (s s' : St) (e : Ev) (hi : Inv s) (hs : step s e = some s') 
           · exact Or.inl h1
           · right
             simp at h1; subst h1
-            refine .rel i _ _ (by simp [released, hcall, hcr]) ?_
+            refine .rel i _ _ (by simp [released, hcall, hcr]) ?_ rfl
             simp [released, setCall, lt_of_getElem? hcall]
         · exact Or.inl h
     | _ => simp [isLock] at hl
